@@ -4,28 +4,42 @@ use serde_json::Value;
 use speclib::report::{Ctx, Violation};
 
 pub mod c01;
+pub mod children;
+pub mod corpus;
+pub mod c03;
+pub mod c17;
 pub mod c02;
 pub mod c04;
+pub mod c19;
 pub mod c20;
 pub mod c05;
 pub mod c18;
 pub mod c14;
+pub mod c08;
 pub mod c09;
 pub mod c10;
+pub mod c11;
+pub mod c12;
 pub mod c13;
 pub mod c06;
 
 pub fn run(ctx: &Ctx) -> i32 {
     match ctx.id.as_str() {
         "C01" => c01::run(ctx),
+        "C03" => c03::run(ctx),
+        "C17" => c17::run(ctx),
         "C02" => c02::run(ctx),
         "C05" => c05::run(ctx),
+        "C19" => c19::run(ctx),
         "C20" => c20::run(ctx),
         "C04" => c04::run(ctx),
         "C18" => c18::run(ctx),
         "C14" => c14::run(ctx),
+        "C08" => c08::run(ctx),
         "C09" => c09::run(ctx),
         "C10" => c10::run(ctx),
+        "C11" => c11::run(ctx),
+        "C12" => c12::run(ctx),
         "C13" => c13::run(ctx),
         "C06" => c06::run(ctx),
         other => {
@@ -38,14 +52,20 @@ pub fn run(ctx: &Ctx) -> i32 {
 fn replay_one(id: &str, w: &Value) -> Result<Vec<Violation>, String> {
     match id {
         "C01" => Ok(c01::replay(w)),
+        "C03" => Ok(c03::replay(w)),
+        "C17" => Ok(c17::replay(w)),
         "C02" => Ok(c02::replay(w)),
         "C05" => Ok(c05::replay(w)),
+        "C19" => Ok(c19::replay(w)),
         "C20" => Ok(c20::replay(w)),
         "C04" => Ok(c04::replay(w)),
         "C18" => Ok(c18::replay(w)),
         "C14" => Ok(c14::replay(w)),
+        "C08" => Ok(c08::replay(w)),
         "C09" => Ok(c09::replay(w)),
         "C10" => Ok(c10::replay(w)),
+        "C11" => Ok(c11::replay(w)),
+        "C12" => Ok(c12::replay(w)),
         "C13" => Ok(c13::replay(w)),
         "C06" => Ok(c06::replay(w)),
         other => Err(format!("unknown property {other}")),
@@ -100,6 +120,12 @@ pub fn replay(ctx: &Ctx, path: &str) -> i32 {
 }
 
 /// Entry for child-process modes (totality and profile sweeps).
-pub fn child(_args: &[String]) -> i32 {
-    2
+pub fn child(args: &[String]) -> i32 {
+    match args.first().map(|s| s.as_str()) {
+        Some("records") if args.len() >= 5 => children::child_records(&args[1..]),
+        _ => {
+            eprintln!("unknown child mode {args:?}");
+            2
+        }
+    }
 }
